@@ -90,6 +90,11 @@ pub fn spot(ex: ExchangeId, base: &str, quote: &str) -> Instrument<ExchangeId, A
 }
 
 pub fn perp(ex: ExchangeId, base: &str, quote: &str) -> Instrument<ExchangeId, Asset> {
+    perp_settled(ex, base, quote, quote)
+}
+
+/// Perpetual whose settlement asset may differ from both underlyings.
+pub fn perp_settled(ex: ExchangeId, base: &str, quote: &str, settle: &str) -> Instrument<ExchangeId, Asset> {
     let name_exchange = InstrumentNameExchange::from(format!("{base}_{quote}_perp"));
     let name_internal = InstrumentNameInternal::new_from_exchange(ex, name_exchange.clone());
     Instrument::new(
@@ -100,7 +105,7 @@ pub fn perp(ex: ExchangeId, base: &str, quote: &str) -> Instrument<ExchangeId, A
         InstrumentQuoteAsset::UnderlyingQuote,
         InstrumentKind::Perpetual(PerpetualContract {
             contract_size: Decimal::ONE,
-            settlement_asset: asset(quote),
+            settlement_asset: asset(settle),
         }),
         None,
     )
